@@ -15,7 +15,7 @@ func VP_Multi3() {
 	dirArg := ""
 	switch zzvp.Choose(3) {
 	case 0:
-		paths, dirArg = []string{"a/x", "b", "c/y", free}, "c"
+		paths, dirArg = []string{"a/p/x", "b", "c/y", free}, "c"
 	case 1:
 		paths, dirArg = []string{"d/x", "d/y", "e", free}, "d"
 	default:
